@@ -37,7 +37,8 @@ def check_pair(ctx, D, drv, pend, name, x, y, args, extra, kind, exhaustive=Fals
         ctx.violation("symmetric", f"{name}(x,y)={v} but {name}(y,x)={vr}", case, key=key + ":symmetric")
     if v < -1e-9:
         ctx.violation("non-negative", f"{name} = {v} < 0", case, key=key + ":nonneg")
-    if not (abs(vx) <= 2e-4 if cname in ("hellinger", "poincare", "cosine", "correlation") else abs(vx) <= 1e-7):
+    if not (abs(vx) <= 2e-3 if cname == "ll_dirichlet" else
+            abs(vx) <= 2e-4 if cname in ("hellinger", "poincare", "cosine", "correlation") else abs(vx) <= 1e-7):
         ctx.violation("identity", f"{name}(x,x) = {vx} != 0", case, key=key + ":identity")
     b = mg.BOUNDS.get(cname)
     if b is not None and v > b + 1e-6:
@@ -69,8 +70,8 @@ def run(ctx):
                 "d<=5 (quick d<=4 + sampled d=5); implementation vs Lean model, vs an independent float64 textbook definition and SciPy "
                 "where defined; symmetry, non-negativity, identity, bounds, argument purity; non-trivial = pair neither all-zero nor identical")
     ctx.assumptions += ["float rounding not verified: real-valued metrics compared at rel 1e-7 (1e-5 where the code uses float32 internally)",
-                        "the identity clause for hellinger / poincare / cosine / correlation allows the 2e-4 that sqrt / arccosh "
-                        "amplify from a rounding-size argument"]
+                        "the identity clause for hellinger / poincare / cosine / correlation allows the 2e-4 (ll_dirichlet, whose self "
+                        "terms use a Stirling approximation: 2e-3) that sqrt / arccosh amplify from a rounding-size argument"]
     drv = Driver()
     pend = []
     # exhaustive binary
@@ -130,6 +131,8 @@ def run(ctx):
                     ref = float(sf(x, y, *args))
             except Exception:  # noqa
                 continue
+            if name in ("russellrao", "kulsinski") and np.array_equal(x != 0, y != 0):
+                continue   # umap's documented convention: 0 on identical supports (SciPy: (n - ntt)/n)
             if name == "braycurtis" and np.any(x + y < 0):
                 continue   # SciPy takes |sum(x+y)|, umap sum|x+y|: definitions agree only for non-negative sums
             v = float(D.named_distances[name](x.copy(), y.copy(), *args))
